@@ -124,14 +124,14 @@ class ThreadWorker(Worker):
         if self._set_names:
             setthreadtitle(self.name, self)
 
-        self._startup_sync.set()
         try:
+            self._startup_sync.set()
             assert self.is_child
             self._init_child()
             self._result = (True, self.do_work())
         except BaseException as e:
-            logger.exception('Exception occurred while running the main function')
             self._result = (False, e)
+            logger.exception('Exception occurred while running the main function')
         finally:
             self._cleanup()
 
